@@ -17,7 +17,10 @@ sys.path.insert(0, HERE)
 from replay import native as N  # noqa: E402
 
 # --------------------------------------------------------------------------------- container substitution (C04/C05/C12)
+CONTAINS_RELAXED = ("schema.list([..., schema.dict({'id': schema.int, 'name': schema.str, ...: ...}), "
+                    "schema.dict({'id': schema.int, 'name': schema.str, ...: ...}), ...])")
 LIST_SCHEMAS = [
+    CONTAINS_RELAXED,
     "schema.list", "schema.list(schema.int)", "schema.list(schema.int.min(0))", "schema.list(schema.str).len(2)",
     "schema.list(schema.int).len(1, ...)", "schema.list([schema.int, schema.str])", "schema.list([])",
     "schema.list([schema.int, ...])", "schema.list([schema.int, schema.str, ...])", "schema.list([..., schema.int])",
@@ -39,6 +42,11 @@ DICT_SCHEMAS = [
     "schema.dict({'a': schema.int(1), 'b': schema.float.precision(1)})",
     "schema.dict({'a': schema.str.regex('[A-Z]{2}-[0-9]{2}'), 'b': schema.str.alphabet('xy').len(1, 3)})",
     "schema.dict({'a': schema.int.min(0).max(9), 'b': schema.str.contains('x')})",
+    # `...` not last (what relaxed + strict produces)
+    "schema.dict({'a': schema.int, ...: ...}) + schema.dict({'b': schema.str})",
+    "schema.dict({...: ..., 'a': schema.int})", "schema.dict({'a': schema.int, ...: ..., 'b': schema.str('x'), optional('c'): schema.int})",
+    "schema.dict({'a': schema.int, 'b': schema.str}) + schema.dict({optional('b'): schema.str, ...: ...})",
+    "schema.dict({'a': schema.dict({'x': schema.int, ...: ...}) + schema.dict({'y': schema.int})})",
 ]
 ANY_SCHEMAS = [
     "schema.any", "schema.any(schema.int)", "schema.any(schema.int, schema.str)", "schema.any(schema.int.min(0), schema.int.max(0))",
@@ -49,7 +57,8 @@ ANY_SCHEMAS = [
     "schema.alias('d', schema.dict({'a': schema.int, optional('b'): schema.str}))", "schema.alias('l', schema.list(schema.int))",
 ]
 SCALAR_VALUES = ["{...: 1}", "0", "1", "-1", "'x'", "''", "None", "True", "1.5", "b'b'", "object()", "(1,)", "{1}"]
-LIST_VALUES = ["[{'a': 1}, {'a': 1, 'b': 2}]", "[]", "[1]", "[1, 'x']", "['x', 1]", "[1, 2]", "[1, 2, 3]", "[0, 1, 'x', 2]", "['a', 1, 'x']", "[1, 'x', 'y']",
+LIST_VALUES = ["[{'id': 1, 'extra': True}, {'id': 2}]", "[{'id': 1, 'name': 'n'}, {'id': 2, 'name': 'm'}, {'id': 3}]",
+               "[{'a': 1}, {'a': 1, 'b': 2}]", "[]", "[1]", "[1, 'x']", "['x', 1]", "[1, 2]", "[1, 2, 3]", "[0, 1, 'x', 2]", "['a', 1, 'x']", "[1, 'x', 'y']",
                "[{'a': 1}]", "[{'a': 1, 'b': 'q'}]", "[{'a': 'bad'}]", "[{'a': 1, 'zz': 0}]", "[{}]", "[[1], [2, 3]]", "[[1, 'x']]",
                "[object()]", "[1, object()]", "[{1: object()}]", "[-1]", "[None]", "[[1, 2], 5]", "[5, [1, 2], 6]", "[{'a': 1}, 3]",
                "[3, {'a': 1}, 4]", "[...]", "[1, ...]", "[..., 1]", "[..., 1, ...]", "[1, ..., 'x']", "(1, 2)", "'ab'"]
@@ -86,6 +95,46 @@ def repr_cases():
         yield "schema.any(%s, schema.none)" % s
 
 
+def ownership_case(src: str):
+    """C07 on containers: no operation may change the schema objects it is given (observable state: repr, key / element
+    order, iteration, equality with a pristine twin)"""
+    import copy
+    from d42 import fake, substitute, validate
+    from d42.representation import represent
+    from d42.utils import make_required
+
+    def snap(x):
+        # a structural description that does not go through d42's own repr (which is one of the operations under test)
+        if isinstance(x, N.Schema):
+            reg = x.props._registry if hasattr(x.props, "_registry") else {}
+            return (type(x).__name__, [(k, snap(v)) for k, v in reg.items()])
+        if isinstance(x, dict):
+            return ("dict", [(snap(k), snap(v)) for k, v in x.items()])
+        if isinstance(x, (list, tuple)):
+            return (type(x).__name__, [snap(v) for v in x])
+        if x is ... or x is N.Nil:
+            return str(x)
+        if isinstance(x, N.optional):
+            return ("optional", snap(x.key))
+        return (type(x).__name__, x if isinstance(x, (int, float, str, bytes, bool, type(None))) else id(x))
+    S1 = ev(src)
+    before = snap(S1)
+    ops = [("represent", lambda: represent(S1)), ("repr", lambda: repr(S1)), ("validate", lambda: validate(S1, {"a": 1})),
+           ("validate-list", lambda: validate(S1, [1, "x"])), ("fake", lambda: fake(S1)),
+           ("substitute", lambda: substitute(S1, {"a": 1})), ("substitute-list", lambda: substitute(S1, [1])),
+           ("==", lambda: S1 == ev(src)), ("+", lambda: S1 + ev("schema.dict({'zz': schema.int})")),
+           ("make_required", lambda: make_required(S1)), ("iter", lambda: list(S1)), ("keys", lambda: list(S1.keys()))]
+    for name, op in ops:
+        try:
+            op()
+        except Exception:
+            pass
+        after = snap(S1)
+        if after != before:
+            return True, f"{name} changed its operand {src}: {before!r} -> {after!r}"[:700]
+    return False, "operands unchanged"
+
+
 def classify(detail: str) -> str:
     """a coarse signature of a failure, used to key listed known findings"""
     d = detail
@@ -119,6 +168,29 @@ def run(prop: str, tier: str, seed: int):
                        "inconvertible members, ... placeholders); distinct = pairs for which the substitution is attempted on a "
                        "container value" % (len(LIST_SCHEMAS) + len(DICT_SCHEMAS) + len(ANY_SCHEMAS)))
         cases = [({"schema": {"k": "expr", "src": s}, "value": {"k": "expr", "src": v}}, f"{s} % {v}") for s, v in substitution_cases()]
+    elif prop == "C07":
+        out["functions"] = ["Representor.visit_dict / visit_any / visit_list (element lists)", "Generator / Validator / Substitutor "
+                            "container visits as far as their mutation of *operands* is concerned (second opinion)"]
+        out["rule"] = "every container schema of the zoo: snapshot (repr, key order, element / alternative lists) before and after " \
+                      "represent, repr, validate, fake, substitute, ==, +, make_required, iteration; distinct = schema expressions"
+        for s_ in LIST_SCHEMAS + DICT_SCHEMAS + ANY_SCHEMAS:
+            out["evaluations"] += 1
+            seen.add(s_)
+            try:
+                bad, detail = ownership_case(s_)
+            except N.Unreachable:
+                out["unreachable"] += 1
+                continue
+            except Exception as e:
+                out.setdefault("harness_errors", []).append(f"{s_}: {e!r}"[:200])
+                continue
+            if len(out["samples"]) < 6 and out["evaluations"] % 9 == 2:
+                out["samples"].append({"case": s_, "oracle_says": detail[:160]})
+            if bad:
+                out["failures"].append({"inputs": {"schema": {"k": "expr", "src": s_}}, "label": s_, "detail": detail,
+                                        "signature": "operand-mutated"})
+        out["distinct"] = len(seen)
+        return out
     elif prop == "C06":
         out["functions"] = ["Representor.visit_list (non-empty element lists)", "Representor.visit_dict", "Representor.visit_any",
                             "Representor.visit_type_alias"]
